@@ -3,7 +3,7 @@ import Srctools.Proofs.C11
 /-!
 # Proofs for the lumps with cross references (index level)
 
-`faces_roundtrip`, `brushes_roundtrip`, `leafs_roundtrip`, `nodes_roundtrip`: what the writer (as
+`faces_roundtrip`, `brushes_roundtrip`, `leafs_roundtrip`, `nodes_roundtrip`, `prims_roundtrip`, `texinfo_roundtrip`: what the writer (as
 coded, with its `find_or_insert` / `find_or_extend` closures) emits is resolved by the reader, against
 the tables after the writer or after any later appends, to the objects that were written.
 -/
@@ -828,5 +828,188 @@ theorem writeNodesAux_shape (nd : Nat → NodeV) (bs : Shape) (hnd : ∀ x, (nd 
         · obtain ⟨h0, h1, h2, h3, h4, h5⟩ := hnd x
           simp [writeNode, shape_int, shape_bool, shape_f32, shape_bytes, nodeShapes, h0, h1, h2, h3, h4, h5]
         · exact ih (k + 1) _ s2 rs hr r hr''
+
+
+/-! ## primitives -/
+
+theorem writePrims_spec : ∀ (ps : List PrimV) (idx : List Int) (vs : List (UInt32 × UInt32 × UInt32)),
+    ∃ I V, (writePrims idx vs ps).2 = (idx ++ I, vs ++ V) ∧
+      ∀ postI postV, readPrims (idx ++ (I ++ postI)) (vs ++ (V ++ postV)) (writePrims idx vs ps).1 = .ok ps := by
+  intro ps
+  induction ps with
+  | nil => intro idx vs; exact ⟨[], [], by simp [writePrims], fun _ _ => rfl⟩
+  | cons p ps ih =>
+    intro idx vs
+    obtain ⟨I, V, h1, h2⟩ := ih (idx ++ p.indices) (vs ++ p.verts)
+    refine ⟨p.indices ++ I, p.verts ++ V, by simp [writePrims, h1], ?_⟩
+    intro postI postV
+    have := h2 postI postV
+    simp only [List.append_assoc] at this
+    simp only [writePrims, readPrims, readPrim, Int.toNat_natCast, List.append_assoc, List.drop_left, List.take_left, this]
+
+/-- **Primitives + PRIMINDICES + PRIMVERTS.** -/
+theorem prims_roundtrip (ps : List PrimV) :
+    readPrims (writePrims [] [] ps).2.1 (writePrims [] [] ps).2.2 (writePrims [] [] ps).1 = .ok ps := by
+  obtain ⟨I, V, h1, h2⟩ := writePrims_spec ps [] []
+  have := h2 [] []
+  rw [h1]
+  simpa using this
+
+/-! ## texinfo + texdata -/
+
+theorem callAll_resK {κ : Type} [DecidableEq κ] (key : Nat → κ) : ∀ (xs : List Nat) (f : Finder Nat κ), f.Inv key →
+    (Finder.callAll key f xs).2.Inv key ∧ f.list <+: (Finder.callAll key f xs).2.list ∧
+    (Finder.callAll key f xs).1.length = xs.length ∧
+    ∀ L, (Finder.callAll key f xs).2.list <+: L →
+      ∃ Y, resolveArr L (Finder.callAll key f xs).1 = .ok Y ∧ Y.map key = xs.map key := by
+  intro xs
+  induction xs with
+  | nil => intro f hf; exact ⟨hf, List.prefix_refl _, rfl, fun _ _ => ⟨[], rfl, rfl⟩⟩
+  | cons x xs ih =>
+    intro f hf
+    obtain ⟨⟨y, hy, hk⟩, p1, i1⟩ := Finder.call_spec key f hf x
+    obtain ⟨i2, p2, l2, r2⟩ := ih _ i1
+    simp only [Finder.callAll]
+    refine ⟨i2, p1.trans p2, by simp [l2], ?_⟩
+    intro L hL
+    obtain ⟨Y, hY, hYk⟩ := r2 L hL
+    refine ⟨y :: Y, ?_, by simp [hk, hYk]⟩
+    simp only [resolveArr, getElem?_of_prefix (p2.trans hL) hy, hY]
+
+
+def normD (fold : Nat → Nat) (d : TexDataV) : TexDataV := { d with mat := fold d.mat }
+def normR (fold : Nat → Nat) (r : TexInfoR) : TexInfoR := { r with td := normD fold r.td }
+def deepTex (tdv : Nat → TexDataV) (i : TexInfoV) : TexInfoR := { f := i.f, flags := i.flags, td := tdv i.td }
+
+theorem resolveArr_length (L : List Nat) : ∀ (ns Y : List Nat), resolveArr L ns = .ok Y → Y.length = ns.length := by
+  intro ns
+  induction ns with
+  | nil => intro Y h; simp [resolveArr] at h; subst h; rfl
+  | cons n ns ih =>
+    intro Y h
+    simp only [resolveArr] at h
+    cases h1 : L[n]? with
+    | none => simp [h1] at h
+    | some x =>
+      cases h2 : resolveArr L ns with
+      | error e => simp [h1, h2] at h
+      | ok ys => simp only [h1, h2, Except.ok.injEq] at h; subst h; simp [ih ys h2]
+
+theorem readTexdata_rec (vit : Bool) (L : List Nat) (d : TexDataV) (n x : Nat) (h : L[n]? = some x) :
+    readTexdata vit L (texdataRec vit d n) = .ok { d with mat := x } := by
+  have hp : pyIdx L (n : Int) = some x := by simp [pyIdx, h]
+  cases vit with
+  | true => simp only [texdataRec, readTexdata, if_true, List.append_nil, hp]
+  | false =>
+    simp only [texdataRec, readTexdata, Bool.false_eq_true, if_false, List.cons_append, List.nil_append, and_self, if_true, hp]
+
+theorem readTexdatas_spec (vit : Bool) (tdv : Nat → TexDataV) (L : List Nat) :
+    ∀ (os ns Y : List Nat), resolveArr L ns = .ok Y → os.length = ns.length →
+    readTexdatas vit L ((List.zip os ns).map (fun p => texdataRec vit (tdv p.1) p.2))
+      = .ok (List.zipWith (fun o y => { tdv o with mat := y }) os Y) := by
+  intro os
+  induction os with
+  | nil => intro ns Y _ _; simp [readTexdatas]
+  | cons o os ih =>
+    intro ns Y hr hl
+    cases ns with
+    | nil => simp at hl
+    | cons n ns =>
+      simp only [resolveArr] at hr
+      cases h1 : L[n]? with
+      | none => simp [h1] at hr
+      | some x =>
+        cases h2 : resolveArr L ns with
+        | error e => simp [h1, h2] at hr
+        | ok ys =>
+          simp only [h1, h2, Except.ok.injEq] at hr
+          subst hr
+          have := ih ns ys h2 (by simpa using hl)
+          simp only [List.zip_cons_cons, List.map_cons, readTexdatas, readTexdata_rec vit L (tdv o) n x h1, this,
+            List.zipWith_cons_cons]
+
+theorem f32sOf_map (f : List UInt32) : f32sOf (f.map Val.f32) = some f := by
+  induction f with
+  | nil => rfl
+  | cons x xs ih => simp [f32sOf, ih]
+
+theorem pyGet_nat {α : Type} (l : List α) (n : Nat) : pyGet l (n : Int) = l[n]? := by simp [pyGet]
+
+theorem readTexinfoRecs_spec (fold : Nat → Nat) (tdv : Nat → TexDataV) (D : List TexDataV) :
+    ∀ (is : List TexInfoV) (ix : List Nat), is.length = ix.length → (∀ i ∈ is, i.f.length = 16) →
+    (∀ k (hk : k < is.length) (hk' : k < ix.length), ∃ d, D[ix[k]]? = some d ∧ normD fold d = normD fold (tdv is[k].td)) →
+    ∃ rs, readTexinfoRecs D ((List.zip is ix).map (fun p => (p.1.f.map Val.f32) ++ [.int p.1.flags, .int p.2])) = .ok rs ∧
+      rs.map (normR fold) = is.map (fun i => normR fold (deepTex tdv i)) := by
+  intro is
+  induction is with
+  | nil => intro ix _ _ _; exact ⟨[], by simp [readTexinfoRecs], rfl⟩
+  | cons i is ih =>
+    intro ix hl h16 hd
+    cases ix with
+    | nil => simp at hl
+    | cons x ix =>
+      obtain ⟨d, hd0, hn0⟩ := hd 0 (by simp) (by simp)
+      obtain ⟨rs, hrs, hmap⟩ := ih ix (by simpa using hl) (fun j hj => h16 j (by simp [hj]))
+        (fun k hk hk' => by
+          have := hd (k + 1) (by simp; omega) (by simp; omega)
+          simpa using this)
+      have hlen : i.f.length = 16 := h16 i (by simp)
+      have ht : ((i.f.map Val.f32) ++ [Val.int i.flags, Val.int (x : Int)]).take 16 = i.f.map Val.f32 := by
+        rw [List.take_left' (by simp [hlen])]
+      have hdr : ((i.f.map Val.f32) ++ [Val.int i.flags, Val.int (x : Int)]).drop 16 = [Val.int i.flags, Val.int (x : Int)] := by
+        rw [List.drop_left' (by simp [hlen])]
+      refine ⟨{ f := i.f, flags := i.flags, td := d } :: rs, ?_, ?_⟩
+      · simp only [List.zip_cons_cons, List.map_cons, readTexinfoRecs, readTexinfoRec, ht, hdr, f32sOf_map, pyGet_nat]
+        simp only [List.getElem_cons_zero] at hd0
+        rw [hd0]
+        simp only [hrs]
+      · simp only [List.map_cons, hmap, normR, deepTex, List.getElem_cons_zero] at hn0 ⊢
+        rw [hn0]
+
+/-- **texinfo + texdata (index level).** Whatever texdata share a material name, and whatever case the
+texture table spells it in, every texinfo is read back with its 16 floats, its flags and the
+reflectivity / size of *its own* texdata; the material name is the table's spelling of the same
+case-folded name. -/
+theorem texinfo_roundtrip (vit : Bool) (fold : Nat → Nat) (tdv : Nat → TexDataV) (textures final : List Nat)
+    (infos : List TexInfoV) (h16 : ∀ i ∈ infos, i.f.length = 16)
+    (hfin : (writeTexinfo vit fold tdv textures infos).2.2 <+: final) :
+    ∃ rs, readTexinfo vit final (writeTexinfo vit fold tdv textures infos).1 (writeTexinfo vit fold tdv textures infos).2.1 = .ok rs ∧
+      rs.map (normR fold) = infos.map (fun i => normR fold (deepTex tdv i)) ∧
+      textures <+: (writeTexinfo vit fold tdv textures infos).2.2 := by
+  obtain ⟨hlen, _, hall⟩ := Finder.callAll_spec idKey (infos.map (·.td)) (Finder.mk' idKey []) (Finder.mk'_inv idKey [])
+  obtain ⟨_, ppre, nlen, nres⟩ := callAll_resK fold
+    ((texdataTable idKey (infos.map (·.td))).2.map (fun o => (tdv o).mat)) (Finder.mk' fold textures) (Finder.mk'_inv fold textures)
+  simp only [writeTexinfo] at hfin ⊢
+  obtain ⟨Y, hY, hYk⟩ := nres final hfin
+  have hYlen := resolveArr_length final _ Y hY
+  have hD := readTexdatas_spec vit tdv final (texdataTable idKey (infos.map (·.td))).2 _ Y hY (by simp [nlen])
+  unfold readTexinfo
+  rw [hD]
+  have := readTexinfoRecs_spec fold tdv
+    (List.zipWith (fun o y => { tdv o with mat := y }) (texdataTable idKey (infos.map (·.td))).2 Y)
+    infos (texdataTable idKey (infos.map (·.td))).1 (by simpa [texdataTable] using hlen.symm) h16
+    (by
+      intro k hk hk'
+      obtain ⟨i, y, h1, h2, h3⟩ := hall k (by simpa using hk)
+      have hy : y = (infos.map (·.td))[k] := h3
+      simp only [texdataTable] at hk' ⊢
+      have hik : (Finder.callAll idKey (Finder.mk' idKey []) (infos.map (·.td))).1[k] = i := by
+        rw [List.getElem?_eq_getElem hk'] at h1; exact Option.some.inj h1
+      rw [hik]
+      have hi : i < (Finder.callAll idKey (Finder.mk' idKey []) (infos.map (·.td))).2.list.length := by
+        rcases Nat.lt_or_ge i (Finder.callAll idKey (Finder.mk' idKey []) (infos.map (·.td))).2.list.length with h | h
+        · exact h
+        · rw [List.getElem?_eq_none h] at h2; cases h2
+      have hiY : i < Y.length := by rw [hYlen, nlen]; simpa [texdataTable] using hi
+      refine ⟨{ tdv y with mat := Y[i] }, ?_, ?_⟩
+      · rw [List.getElem?_zipWith]
+        simp only [texdataTable, h2, List.getElem?_eq_getElem hiY, Option.map_some, Option.bind_some]
+      · have hfold : fold Y[i] = fold (tdv y).mat := by
+          have := congrArg (fun l => l[i]?) hYk
+          simp only [List.getElem?_map, List.getElem?_eq_getElem hiY, Option.map_some, texdataTable, h2] at this
+          exact Option.some.inj this
+        simp only [normD, hfold, hy, List.getElem_map])
+  obtain ⟨rs, h1, h2⟩ := this
+  exact ⟨rs, h1, h2, ppre⟩
 
 end C11
